@@ -28,7 +28,7 @@ func (c *Ctx) anchors() *Anchors {
 	a := &Anchors{FlagAlloc: map[string]ssa.Value{}, FlagKind: map[string]string{}, FlagFree: map[*ssa.Function]map[string]*ssa.FreeVar{}}
 	a.Main = c.Fn("main")
 	if a.Main == nil {
-		a.Problems = append(a.Problems, "function main not found")
+		a.Problems = append(a.Problems, "main: function main not found")
 		return a
 	}
 	// cobra.Command composite literals: alloc -> (Use, Run)
@@ -97,10 +97,10 @@ func (c *Ctx) anchors() *Anchors {
 		}
 	}
 	if a.RedactClosure == nil {
-		a.Problems = append(a.Problems, "redact command Run closure not found")
+		a.Problems = append(a.Problems, "redact: redact command Run closure not found")
 	}
 	if a.DecryptClosure == nil {
-		a.Problems = append(a.Problems, "decrypt command Run closure not found")
+		a.Problems = append(a.Problems, "decrypt: decrypt command Run closure not found")
 	}
 	// flag bindings: (*pflag.FlagSet).XxxVarP(fs, &v, "name", ...)
 	allInstrs(a.Main, func(i ssa.Instruction) {
@@ -144,13 +144,13 @@ func (c *Ctx) anchors() *Anchors {
 	for _, f := range c.SortedFuncs() {
 		if hasCallTo(f, "(*bufio.Scanner).Scan") && hasCallTo(f, c.pkgFn("RedactMongoLog")) {
 			if a.StreamFn != nil {
-				a.Problems = append(a.Problems, fmt.Sprintf("more than one scan loop: %s and %s", a.StreamFn.Name(), f.Name()))
+				a.Problems = append(a.Problems, fmt.Sprintf("stream: more than one scan loop: %s and %s", a.StreamFn.Name(), f.Name()))
 			}
 			a.StreamFn = f
 		}
 	}
 	if a.StreamFn == nil {
-		a.Problems = append(a.Problems, "no function combining a bufio.Scanner loop with RedactMongoLog")
+		a.Problems = append(a.Problems, "stream: no function combining a bufio.Scanner loop with RedactMongoLog")
 	}
 	sort.Strings(a.Problems)
 	return a
@@ -184,14 +184,25 @@ func (a *Anchors) flagOfValue(fn *ssa.Function, v ssa.Value) (string, bool) {
 }
 
 // requireAnchors records anchor problems as undecided obligations.
-func requireAnchors(r *Report, a *Anchors, rule string) bool {
-	if len(a.Problems) == 0 {
-		return true
-	}
+func requireAnchors(r *Report, a *Anchors, rule string, needs ...string) bool {
+	ok := true
 	for _, p := range a.Problems {
-		r.Undecided(rule, "anchor", "-", p)
+		kind := p
+		if i := strings.Index(p, ":"); i >= 0 {
+			kind = p[:i]
+		}
+		relevant := len(needs) == 0 || kind == "main"
+		for _, n := range needs {
+			if n == kind {
+				relevant = true
+			}
+		}
+		if relevant {
+			r.Undecided(rule, "anchor", "-", p)
+			ok = false
+		}
 	}
-	return false
+	return ok
 }
 
 // callersOf lists call instructions in the package whose static callee is fn.
